@@ -209,7 +209,9 @@ def _gen_one_message(rng, who, n, allow_until):
         spec = _rand_spec(rng); spec["tail"] = ""
         enc = build_wire(spec)
         body = b"".join(unh(c["data"]) for c in spec["chunks"])
-        te = b"Transfer-Encoding: " + rng.choice([b"chunked", b"chunked", b"Chunked"]) + b"\r\n"
+        te = (rng.choice([b"Transfer-Encoding", b"transfer-encoding", b"TRANSFER-ENCODING", b"Transfer-encoding", b"tRANSFER-eNCODING"])
+              + b": " + rng.choice([b"", b"", b" ", b"\t"]) + rng.choice([b"chunked", b"chunked", b"Chunked", b"CHUNKED", b"cHunKed"])
+              + rng.choice([b"", b"", b" ", b" \t"]) + b"\r\n")
         hdrs = [te]
         if rng.random() < 0.3:
             # both framings announced: Transfer-Encoding overrides Content-Length (RFC 7230 3.3.3), whatever its value
